@@ -326,7 +326,7 @@ def c09(ctx, replay):
                     "samples = {T-o-r <= ts <= T-o}) after every emitted step for every sample multiset (<=3 over 0..4 quick, <=4 over "
                     "0..5 thorough; ties, samples on both edges), range, step (<, =, > range), start, end, offset; every explored "
                     "(samples, range, offset, start, end, step) is replayed on Engine.Eval as a range query plus instant queries at both "
-                    "ends; random driver: all 13 range functions (unwrap with by/without grouping, quantile parameters), sub-second "
+                    "ends; random driver: all 13 range functions (unwrap with by/without grouping, quantile parameters, the conversions bytes() / duration() / duration_seconds(), label matchers behind the unwrap expression), sub-second "
                     "timestamps just inside/outside the edges, 2-4 evaluations with different grids per scenario; TLC checks every "
                     "returned point against the declarative window value (Metric.tla); non-trivial = distinct (records, expression)",
                assumptions=["observed float64 values are projected to the simplest rational within 1e-9 relative; stddev is compared through its square",
@@ -653,7 +653,7 @@ def c05(ctx, replay):
                     "<=3 (thorough), 60 range aggregations over all 13 operations with unwrap/conversion/parameter/grouping/range/offset, 40 "
                     "vector aggregations, 40 binary operations, vector()); static rules hold for each; every AST is exported under 6 "
                     "layouts (spaces, newlines, tabs, comments between all tokens, back-quoted strings, redundant parentheses, grouping "
-                    "before/after the operand, compound durations) and with every applicable forbidden mutation (9 for log, 14 for metric "
+                    "before/after the operand, compound durations, the range written directly behind the selector or behind the pipeline; random driver also: raw literals with edge quotes, regexp stages with named and unnamed groups, ip() filters, unwrap filters) and with every applicable forbidden mutation (9 for log, 14 for metric "
                     "queries); logql.Parse is run on each text and TLC compares the projected tree with the AST's wire form (valid) or "
                     "requires rejection (mutated); random driver: queries of the C01/C06/C07/C09/C11/C12 generators under random "
                     "layouts and mutations; non-trivial = distinct (AST, mutation)",
